@@ -13,7 +13,7 @@ from ad_afqmc import hamiltonian as hmod
 from ad_afqmc import propagation, sampling, wavefunctions
 from vlib import gens, measure, runs
 from vlib import samplerlib as sl
-from vlib.harness import SubCheck
+from vlib.harness import SubCheck, Violation
 
 PROPERTY = "C14"
 LEVEL = "exploration"
@@ -209,6 +209,9 @@ def ru_case(draw, tier, shard=0, nshards=1):
     p = draw(sl.problem(walker_types=("rhf",), shapes={"rhf": [c["shape"]]}, n_walkers=(c["nw"],), dts=(c["dt"],), nchol=(2,)))
     p["n_batch"] = c["nb"]
     p.update({"n_prop_steps": c["steps"], "n_ene_blocks": c["ene"], "n_sr_blocks": c["sr"], "perturb": draw(st.sampled_from([0.0, 0.1])), "driver": draw(st.integers(0, 3)) == 0})
+    # option combination of the driver run; weights only become unequal at block end without in-block reconfiguration
+    p["drv_ad_mode"], p["drv_do_sr"], p["drv_orot"] = draw(st.sampled_from([(None, True, True), ("forward", False, True), ("reverse", False, False), ("forward", True, False), ("reverse", False, True), ("forward", False, True)]))
+    p["sr_weights"] = [draw(st.floats(0.05, 3.0)) for _ in range(c["nw"])]
     return p
 
 
@@ -248,15 +251,42 @@ def ru_body(ctx, case):
     ctx.check_close("r-vs-u:step:weights", case, "weights after one step", np.asarray(su_["weights"]), np.asarray(sr_["weights"]), 1e-10, 1.0)
     ctx.check_close("r-vs-u:step:overlaps", case, "overlaps after one step", np.asarray(su_["overlaps"]), np.asarray(sr_["overlaps"]), 1e-10, float(np.max(np.abs(np.asarray(sr_["overlaps"])))) + 1e-300)
     ctx.check_close("r-vs-u:step:walkers", case, "walkers after one step (both spin blocks)", np.stack([np.asarray(su_["walkers"][0]), np.asarray(su_["walkers"][1])]), np.stack([np.asarray(sr_["walkers"])] * 2), 1e-10, 1.0)
+    # population control through the propagators' own entry points, unequal weights, same key
+    try:
+        from ad_afqmc import config as _config
+
+        comm = _config.not_MPI().COMM_WORLD
+        wts = jnp.asarray(case["sr_weights"], dtype=float)
+        for which in ("local", "global"):
+            a_, b_ = sl.copy_pd(sr_), sl.copy_pd(su_)
+            a_["weights"], b_["weights"] = wts, wts
+            a_["key"] = b_["key"] = jax.random.PRNGKey(int(case["seed"]) % 99991)
+            if which == "local":
+                a_, b_ = Pr.prop.stochastic_reconfiguration_local(a_), Pu.prop.stochastic_reconfiguration_local(b_)
+            else:
+                a_, b_ = Pr.prop.stochastic_reconfiguration_global(a_, comm), Pu.prop.stochastic_reconfiguration_global(b_, comm)
+            ctx.count(f"r-vs-u:reconfiguration-{which}")
+            ctx.check_close(f"r-vs-u:reconfiguration-{which}:weights", case, f"weights after {which} reconfiguration", np.asarray(b_["weights"]), np.asarray(a_["weights"]), 1e-12, 1.0)
+            ctx.check_close(f"r-vs-u:reconfiguration-{which}:walkers", case, f"walkers after {which} reconfiguration (both spin blocks)", np.stack([np.asarray(b_["walkers"][0]), np.asarray(b_["walkers"][1])]), np.stack([np.asarray(a_["walkers"])] * 2), 1e-10, 1.0)
+            if not np.array_equal(np.asarray(jax.random.key_data(a_["key"]) if hasattr(jax.random, "key_data") else a_["key"]), np.asarray(jax.random.key_data(b_["key"]) if hasattr(jax.random, "key_data") else b_["key"])):
+                ctx.fail(f"r-vs-u:reconfiguration-{which}:key", case, "the two propagators leave different random keys behind")
+    except (Violation, hypothesis.errors.HypothesisException):
+        raise
+    except Exception as e:
+        ctx.fail(f"r-vs-u:reconfiguration-raised-{type(e).__name__}", case, f"{type(e).__name__}: {str(e)[:300]}")
+        return
     ctx.check_close("r-vs-u:sampler:energy", case, "block energy restricted - unrestricted", float(eu), float(er), 1e-9, max(1.0, abs(float(er))))
     ctx.check_close("r-vs-u:sampler:weights", case, "weights after the sampler call", np.asarray(qu_["weights"]), np.asarray(qr_["weights"]), 1e-9, 1.0)
     if case["driver"]:
         try:
             outs = []
             for P_, wt in ((Pr, "rhf"), (Pu, "uhf")):
-                opts = runs.default_options(seed=int(case["seed"]) % 100000, n_walkers=P_.nw, dt=P_.dt, n_prop_steps=int(case["n_prop_steps"]), n_ene_blocks=int(case["n_ene_blocks"]), n_sr_blocks=int(case["n_sr_blocks"]), n_blocks=3, walker_type=wt, n_batch=P_.nb)
+                opts = runs.default_options(seed=int(case["seed"]) % 100000, n_walkers=P_.nw, dt=P_.dt, n_prop_steps=int(case["n_prop_steps"]), n_ene_blocks=int(case["n_ene_blocks"]), n_sr_blocks=int(case["n_sr_blocks"]), n_blocks=3, walker_type=wt, n_batch=P_.nb,
+                                            ad_mode=case.get("drv_ad_mode"), do_sr=bool(case.get("drv_do_sr", True)), orbital_rotation=bool(case.get("drv_orot", True)))
                 smp3 = sampling.sampler(n_prop_steps=int(case["n_prop_steps"]), n_ene_blocks=int(case["n_ene_blocks"]), n_sr_blocks=int(case["n_sr_blocks"]), n_blocks=3)
-                outs.append(runs.run_driver(P_.ham_data0, P_.ham, P_.prop, P_.trial, P_.wave_data, smp3, None, opts))
+                o_ = np.diag(np.arange(P_.norb, dtype=float))
+                obs_ = [np.stack([o_, o_]), 0.0] if case.get("drv_ad_mode") else None
+                outs.append(runs.run_driver(P_.ham_data0, P_.ham, P_.prop, P_.trial, P_.wave_data, smp3, obs_, opts))
         except Exception as e:
             ctx.fail(f"r-vs-u:driver-raised-{type(e).__name__}", case, f"{type(e).__name__}: {str(e)[:300]}")
             return
@@ -264,6 +294,7 @@ def ru_body(ctx, case):
         if a is None or b is None or a.shape != b.shape:
             ctx.fail("r-vs-u:driver-samples", case, f"samples_raw shapes {None if a is None else a.shape} vs {None if b is None else b.shape}")
             return
+        ctx.count(f"r-vs-u:driver:ad_mode={case.get('drv_ad_mode')},do_sr={case.get('drv_do_sr', True)},orbital_rotation={case.get('drv_orot', True)}")
         ctx.check_close("r-vs-u:driver:block-energies", case, "driver block energies restricted - unrestricted", b[:, 1], a[:, 1], 1e-5, max(1.0, float(np.max(np.abs(a[:, 1])))))
         ctx.check_close("r-vs-u:driver:block-weights", case, "driver block weights restricted - unrestricted", b[:, 0], a[:, 0], 1e-5, max(1.0, float(np.max(np.abs(a[:, 0])))))
 
